@@ -86,3 +86,16 @@ check('C15',
       'index in {-1,0,1,2,size,size+1} from three seeds to depth 3/4 against a list model incl. FOAY0001/FOAY0002. deep-equal over all pairs of a value pool x trailing items.',
       'key type of stored keys and key order are not compared; use-any accepts either value',
       'DESIGN.md section 3 C15')
+check('C19',
+      'explicit-state search over evaluation histories under a harness-owned virtual locale and tracked lock; preemption-bounded stateless exploration of real threads under a baton scheduler',
+      'The library\'s locale primitives (locale._setlocale, strcoll, strxfrm) and its collation lock are replaced at run time by a VirtualLocale '
+      '(6 configurations of installed locale names and initial LC_COLLATE, incl. none beyond C/POSIX and an unparsable name) and a TrackedLock. '
+      'Every one of ~330 operations (14 collation-taking functions x 14 collation arguments as literals - statically evaluated inside parse() - and as '
+      'variables, default-collation forms, parser construction) is run from every configuration, then every operation followed by every probe '
+      '(depth 2) and every risky pair followed by every probe (depth 3, thorough); after EVERY step the lock must be free, LC_COLLATE restored, '
+      'decimal context and os.environ unchanged, only ElementPathError raised, and the probe must answer as from the initial state; a blocked '
+      'acquire is reported as a deadlock. Environment functions for every variable name and 130 DOCTYPE/entity documents through parse-xml/'
+      'parse-xml-fragment on both libraries. Three thread harnesses (2-3 real threads) are explored over ALL schedules with <= 2 (quick) / 3 (thorough) '
+      'preemptions at line granularity inside collations.py and the lazy-subset cache and at lock operations, each schedule checked against the sequential results.',
+      'locale behaviour is the VirtualLocale\'s; preemption inside one bytecode line or C code is not modelled; replay of a schedule prefix must reproduce the trace (checked)',
+      'DESIGN.md section 3 C19')
